@@ -51,7 +51,7 @@ def run_case(case: dict) -> dict:
                                    "msg": f"session {k} ({session.kind} {session.subdir}) raised {session.exc}"})
             report = auditor.audit(root, check_digests=False)
             _hist.oracle_c08(root, model, k if session.completed else k - 1, violations, obs, report,
-                             only_missing=not session.completed)
+                             only_missing=not session.completed, kept_handle=dataset)
             if k == case["create_after"]:
                 _hist.oracle_create_refused(root, hist, violations, obs)
 
